@@ -141,6 +141,10 @@ func unmarshalList(buf []byte, ety cty.Type, path cty.Path) (cty.Value, error) {
 		return cty.ListValEmpty(ety), nil
 	}
 
+	if !cty.CanListVal(vals) {
+		// Possible only when the element type is not fully specified.
+		return cty.NilVal, path.NewErrorf("all list elements must have the same type")
+	}
 	return cty.ListVal(vals), nil
 }
 
@@ -182,6 +186,10 @@ func unmarshalSet(buf []byte, ety cty.Type, path cty.Path) (cty.Value, error) {
 		return cty.SetValEmpty(ety), nil
 	}
 
+	if !cty.CanSetVal(vals) {
+		// Possible only when the element type is not fully specified.
+		return cty.NilVal, path.NewErrorf("all set elements must have the same type")
+	}
 	return cty.SetVal(vals), nil
 }
 
@@ -234,6 +242,10 @@ func unmarshalMap(buf []byte, ety cty.Type, path cty.Path) (cty.Value, error) {
 		return cty.MapValEmpty(ety), nil
 	}
 
+	if !cty.CanMapVal(vals) {
+		// Possible only when the element type is not fully specified.
+		return cty.NilVal, path.NewErrorf("all map elements must have the same type")
+	}
 	return cty.MapVal(vals), nil
 }
 
